@@ -24,7 +24,7 @@ def proto_cmd(a, obs=None):
         return "take %d" % a["p"]
     if k == "inject":
         words = "".join(" w%d" % w for w in a.get("hdr", []))
-        return "inject %d %s%s" % (a["p"], a["m"] if a.get("m") is not None else "-", words)
+        return "inject %d %s%s" % (a["p"], "-" if a.get("short") else a["m"], words)
     if k == "peer_close":
         return "peer_close %d" % a["p"]
     if k == "setopt":
@@ -61,7 +61,7 @@ def sig_proto(proto):
     return f
 
 
-def replay_proto(v, proto, raw, spec, cfg, rng, maxlen=30, nrandom=300, limit=None, timeout=1500, chunk=150):
+def replay_proto(v, proto, raw, spec, cfg, rng, maxlen=30, nrandom=300, limit=None, timeout=1500, chunk=150, auto=False):
     exe = build_driver("drv_proto", DRV)
     g = tlc_edges(spec, cfg, timeout=timeout)
     v.cov["states"] += g["distinct"]
@@ -70,7 +70,7 @@ def replay_proto(v, proto, raw, spec, cfg, rng, maxlen=30, nrandom=300, limit=No
     extra = random_walks(g, rng, nrandom, maxlen * 2)
     n = replay_walks(v, g, walks + extra, exe, "x", lambda a, o=None: proto_cmd(a), lambda ia: "", spec + ":" + cfg,
                      sig_of=sig_proto(proto), check_fin=False, chunk=chunk,
-                     prelude="proto %s %d" % (proto, 1 if raw else 0))
+                     prelude=("auto 1\n" if auto else "") + "proto %s %d" % (proto, 1 if raw else 0))
     log("%s: %d/%d edges covered by %d walks (+%d random), %d validated" % (spec, covered, total, len(walks), len(extra), n))
     v.cov.setdefault("edge_cover", {})[spec + ":" + cfg] = dict(edges=total, covered=covered, walks=len(walks),
                                                                random_walks=len(extra), validated=n, states=g["nstates"])
